@@ -1,13 +1,172 @@
 import ZixModel.Model.Ring
-/-! # C05 — ring is an all-or-nothing bounded byte FIFO with atomic transactions -/
+import ZixModel.Lemmas.Ring
+/-! # C05 — ring is an all-or-nothing bounded byte FIFO with atomic transactions
+
+Property theorems only; helper lemmas live in `ZixModel/Lemmas/Ring.lean`. -/
 namespace Zix.C05
 open Zix.Ring
 
-/-- `reset` empties the ring. -/
-theorem reset_empties (g : Ring) (h : 0 < g.size) : readSpace (reset g) = 0 := by
-  unfold readSpace readSpaceAt reset W32
-  simp only
-  have : (0 + 2 ^ 32 - 0) % 2 ^ 32 = 0 := by decide
-  rw [this]; exact Nat.zero_mod _
+/-- Representation invariant of a ring made by `new`: power-of-two size ≤ 2^31, heads in range,
+buffer of `size` bytes. -/
+structure WF (g : Ring) : Prop where
+  pow   : ∃ k, k ≤ 31 ∧ g.size = 2 ^ k
+  rlt   : g.r < g.size
+  wlt   : g.w < g.size
+  blen  : g.buf.length = g.size
+
+/-- The bytes stored in the ring, oldest first (the abstraction function to the FIFO spec). -/
+def content (g : Ring) : List Nat :=
+  (List.range (readSpace g)).map (fun i => g.buf.getD ((g.r + i) % g.size) 0)
+
+/-! ## construction -/
+
+/-- For 1 ≤ s ≤ 2^31 the bit smear returns the least power of two ≥ s. -/
+theorem next_pow2_spec (s : Nat) (h1 : 1 ≤ s) (h2 : s ≤ 2 ^ 31) :
+    ∃ k, k ≤ 31 ∧ nextPow2 s = 2 ^ k ∧ s ≤ 2 ^ k ∧ (k = 0 ∨ 2 ^ (k - 1) < s) := by
+  exact nextPow2_spec s h1 h2
+
+theorem new_wf (s : Nat) (h1 : 1 ≤ s) (h2 : s ≤ 2 ^ 31) : WF (new s) ∧ content (new s) = [] := by
+  obtain ⟨hw, hc, _⟩ := new_ok s h1 h2
+  exact ⟨⟨hw.pow, hw.rlt, hw.wlt, hw.blen⟩, hc⟩
+
+/-- capacity = (least power of two ≥ s) − 1 -/
+theorem new_capacity (s : Nat) (h1 : 1 ≤ s) (h2 : s ≤ 2 ^ 31) :
+    capacity (new s) = nextPow2 s - 1 := by
+  exact (new_ok s h1 h2).2.2
+
+/-! ## spaces -/
+
+theorem read_space_eq_length (g : Ring) : (content g).length = readSpace g := by
+  exact window_length ..
+
+/-- read_space + write_space = capacity, always. -/
+theorem ring_space_sum (g : Ring) (h : WF g) : readSpace g + writeSpace g = capacity g := by
+  exact space_sum ⟨h.pow, h.rlt, h.wlt, h.blen⟩
+
+/-! ## write / read / peek / skip / reset refine the FIFO -/
+
+/-- `write` succeeds exactly when the request fits the free space, then appends exactly the bytes;
+otherwise it returns 0 and changes nothing. -/
+theorem write_refines (g : Ring) (h : WF g) (d : List Nat) :
+    (d.length ≤ writeSpace g →
+      (write g d).2 = d.length ∧ WF (write g d).1 ∧ content (write g d).1 = content g ++ d) ∧
+    (writeSpace g < d.length → write g d = (g, 0)) := by
+  have hr : RWF g := ⟨h.pow, h.rlt, h.wlt, h.blen⟩
+  refine ⟨fun hd => ?_, fun hd => write_fail g d hd⟩
+  obtain ⟨h1, hw, hc⟩ := write_ok hr d hd
+  exact ⟨h1, ⟨hw.pow, hw.rlt, hw.wlt, hw.blen⟩, hc⟩
+
+/-- `read` succeeds exactly when the request fits the stored data and then delivers the oldest
+`n` bytes and removes them; otherwise nothing happens. -/
+theorem read_refines (g : Ring) (h : WF g) (n : Nat) (hn : n < W32) :
+    (n ≤ readSpace g →
+      (read g n).2 = some ((content g).take n) ∧ WF (read g n).1 ∧
+      content (read g n).1 = (content g).drop n) ∧
+    (readSpace g < n → read g n = (g, none)) := by
+  have _ := hn  -- `hn` is not needed: a successful request is below `size ≤ 2^31` anyway
+  have hr : RWF g := ⟨h.pow, h.rlt, h.wlt, h.blen⟩
+  have he := read_eq hr n
+  refine ⟨fun hle => ?_, fun hlt => ?_⟩
+  · rw [if_neg (by omega)] at he
+    obtain ⟨hw, hc, _⟩ := consume_ok hr hle
+    rw [he]
+    exact ⟨rfl, ⟨hw.pow, hw.rlt, hw.wlt, hw.blen⟩, hc⟩
+  · rw [if_pos hlt] at he
+    exact he
+
+/-- `peek` delivers the same bytes as `read` would and consumes nothing (it returns no new state). -/
+theorem peek_refines (g : Ring) (h : WF g) (n : Nat) :
+    (n ≤ readSpace g → peek g n = some ((content g).take n)) ∧
+    (readSpace g < n → peek g n = none) := by
+  have hr : RWF g := ⟨h.pow, h.rlt, h.wlt, h.blen⟩
+  have he := peek_eq hr n
+  refine ⟨fun hle => ?_, fun hlt => ?_⟩
+  · rw [if_neg (by omega)] at he
+    exact he
+  · rw [if_pos hlt] at he
+    exact he
+
+theorem skip_refines (g : Ring) (h : WF g) (n : Nat) (hn : n < W32) :
+    (n ≤ readSpace g →
+      (skip g n).2 = true ∧ WF (skip g n).1 ∧ content (skip g n).1 = (content g).drop n) ∧
+    (readSpace g < n → skip g n = (g, false)) := by
+  have _ := hn  -- `hn` is not needed: a successful request is below `size ≤ 2^31` anyway
+  have hr : RWF g := ⟨h.pow, h.rlt, h.wlt, h.blen⟩
+  have he := skip_eq hr n
+  refine ⟨fun hle => ?_, fun hlt => ?_⟩
+  · rw [if_neg (by omega)] at he
+    obtain ⟨hw, hc, _⟩ := consume_ok hr hle
+    rw [he]
+    exact ⟨rfl, ⟨hw.pow, hw.rlt, hw.wlt, hw.blen⟩, hc⟩
+  · rw [if_pos hlt] at he
+    exact he
+
+theorem reset_refines (g : Ring) (h : WF g) : WF (reset g) ∧ content (reset g) = [] := by
+  obtain ⟨hw, hc⟩ := reset_ok (g := g) ⟨h.pow, h.rlt, h.wlt, h.blen⟩
+  exact ⟨⟨hw.pow, hw.rlt, hw.wlt, hw.blen⟩, hc⟩
+
+/-! ## transactions
+
+`TxOk g tx pending` says: `tx` was begun on this ring, `pending` are the bytes amended so far
+(stored in the buffer after the write head, invisible), and the reader may have consumed
+`consumed` bytes since `begin` (so the transaction's copy of the read head is stale by that much). -/
+structure TxOk (g : Ring) (tx : Tx) (pending : List Nat) : Prop where
+  rlt : tx.r < g.size
+  wlt : tx.w < g.size
+  /-- stale read head, then the live data, then the pending bytes, all fit in the ring -/
+  fits : ((g.r + W32 - tx.r) % W32) % g.size + readSpace g + pending.length ≤ g.size - 1
+  pend : tx.w = (g.w + pending.length) % g.size
+  bytes : ∀ i, i < pending.length → g.buf.getD ((g.w + i) % g.size) 0 = pending.getD i 0
+
+theorem begin_ok (g : Ring) (h : WF g) : TxOk g (beginWrite g) [] := by
+  have ht := rtx_begin (g := g) ⟨h.pow, h.rlt, h.wlt, h.blen⟩
+  exact ⟨ht.rlt, ht.wlt, ht.fits, ht.pend, ht.bytes⟩
+
+/-- Amending is invisible to readers, accumulates the bytes contiguously, and fails with NO_MEM
+exactly when the transaction would exceed the free space it saw at `begin`. -/
+theorem tx_amend (g : Ring) (h : WF g) (tx : Tx) (p d : List Nat) (ht : TxOk g tx p) :
+    (d.length ≤ writeSpaceAt g tx.r tx.w →
+      ∃ g' tx', amend g tx d = some (g', tx') ∧ WF g' ∧ content g' = content g ∧
+        g'.r = g.r ∧ g'.w = g.w ∧ TxOk g' tx' (p ++ d)) ∧
+    (writeSpaceAt g tx.r tx.w < d.length → amend g tx d = none) := by
+  have hr : RWF g := ⟨h.pow, h.rlt, h.wlt, h.blen⟩
+  have htr : RTx g tx p := ⟨ht.rlt, ht.wlt, ht.fits, ht.pend, ht.bytes⟩
+  refine ⟨fun hd => ?_, fun hd => amend_none g tx d hd⟩
+  obtain ⟨g', tx', e, hw, hc, e1, e2, ht'⟩ := rtx_amend hr htr hd
+  exact ⟨g', tx', e, ⟨hw.pow, hw.rlt, hw.wlt, hw.blen⟩, hc, e1, e2,
+    ⟨ht'.rlt, ht'.wlt, ht'.fits, ht'.pend, ht'.bytes⟩⟩
+
+/-- The free space a transaction sees is what was free at `begin` minus what it has amended. -/
+theorem tx_write_space (g : Ring) (h : WF g) (tx : Tx) (p : List Nat) (ht : TxOk g tx p) :
+    writeSpaceAt g tx.r tx.w + p.length + readSpace g + ((g.r + W32 - tx.r) % W32) % g.size = g.size - 1 := by
+  exact rtx_space ⟨h.pow, h.rlt, h.wlt, h.blen⟩ ⟨ht.rlt, ht.wlt, ht.fits, ht.pend, ht.bytes⟩
+
+/-- Commit publishes all amended bytes at once, contiguously, as one write. -/
+theorem tx_commit_is_one_write (g : Ring) (h : WF g) (tx : Tx) (p : List Nat) (ht : TxOk g tx p) :
+    WF (commit g tx) ∧ content (commit g tx) = content g ++ p := by
+  obtain ⟨hw, hc⟩ := rtx_commit (g := g) (tx := tx) (p := p) ⟨h.pow, h.rlt, h.wlt, h.blen⟩
+    ⟨ht.rlt, ht.wlt, ht.fits, ht.pend, ht.bytes⟩
+  exact ⟨⟨hw.pow, hw.rlt, hw.wlt, hw.blen⟩, hc⟩
+
+/-- Reading while a transaction is open keeps it consistent (the reader only makes its read head stale). -/
+theorem tx_survives_read (g : Ring) (h : WF g) (tx : Tx) (p : List Nat) (ht : TxOk g tx p)
+    (n : Nat) (hn : n < W32) : TxOk (read g n).1 tx p := by
+  have _ := hn  -- `hn` is not needed: a successful request is below `size ≤ 2^31` anyway
+  have hr : RWF g := ⟨h.pow, h.rlt, h.wlt, h.blen⟩
+  have htr : RTx g tx p := ⟨ht.rlt, ht.wlt, ht.fits, ht.pend, ht.bytes⟩
+  have he := read_eq hr n
+  by_cases hlt : readSpace g < n
+  · rw [if_pos hlt] at he
+    rw [he]
+    exact ht
+  · rw [if_neg hlt] at he
+    have ht' := (consume_ok hr (show n ≤ readSpace g by omega)).2.2 tx p htr
+    rw [he]
+    exact ⟨ht'.rlt, ht'.wlt, ht'.fits, ht'.pend, ht'.bytes⟩
+
+/-! ## non-vacuity -/
+example : WF (new 5) := (new_wf 5 (by decide) (by decide)).1
+example : (write (new 5) [1, 2, 3]).2 = 3 := by decide
+example : (read (write (new 5) [1, 2, 3]).1 2).2 = some [1, 2] := by decide
 
 end Zix.C05
